@@ -17,7 +17,7 @@ use biodivine_lib_param_bn::symbolic_async_graph::{GraphColoredVertices, Symboli
 use std::collections::HashMap;
 use std::time::Instant;
 
-pub const QUICK_MODELS: [&str; 3] = ["myeloid", "110_9v_parametrized", "model-010-13var-2in"];
+pub const QUICK_MODELS: [&str; 4] = ["myeloid", "110_9v_parametrized", "model-010-13var-2in", "cell_division_65536c"];
 
 /// (models, cases per model) of the big-model part of a check.
 pub fn plan(tier: Tier) -> (Vec<&'static str>, u64) {
